@@ -1,6 +1,6 @@
 //! nsim — deterministic simulation with fault injection for Neumann.
 //! See /verif/DESIGN.md.
-#![allow(clippy::too_many_lines, clippy::type_complexity)]
+#![allow(clippy::too_many_lines, clippy::type_complexity, dead_code)]
 
 mod ctx;
 mod driver;
@@ -37,7 +37,7 @@ fn main() {
     if args.len() < 3 {
         usage();
     }
-    // keep /repo's tracing quiet and deterministic
+    sched::install_repo_hook();
     let code = match args[1].as_str() {
         "check" => {
             let prop = args[2].as_str();
